@@ -105,7 +105,9 @@ func (c *lruSessionCache) Put(sessionKey string, cs *SessionState) {
 	elem := c.q.Back()
 	entry := elem.Value.(*lruSessionCacheEntry)
 	oldCs := entry.state
-	if oldCs != nil {
+	// 同一个会话对象可能以多个键缓存（客户端同时以会话ID和目的地址为键）：
+	// 只有不再被其他缓存项引用时才可以清理主密钥
+	if oldCs != nil && oldCs != cs && !c.referencedElsewhere(oldCs, elem) {
 		// 清理旧的主密钥
 		setZero(oldCs.masterSecret)
 		oldCs.masterSecret = nil
@@ -115,6 +117,16 @@ func (c *lruSessionCache) Put(sessionKey string, cs *SessionState) {
 	entry.state = cs
 	c.q.MoveToFront(elem)
 	c.m[sessionKey] = elem
+}
+
+// referencedElsewhere 判断会话对象是否还被 except 之外的缓存项引用
+func (c *lruSessionCache) referencedElsewhere(cs *SessionState, except *list.Element) bool {
+	for e := c.q.Front(); e != nil; e = e.Next() {
+		if e != except && e.Value.(*lruSessionCacheEntry).state == cs {
+			return true
+		}
+	}
+	return false
 }
 
 // Get 返回 sessionKey 关联的会话信息，若没有找到 sessionKey 对应的值，则返回 (nil, false)
